@@ -324,3 +324,238 @@ func specMember(s []uint16, n int, x uint16) bool {
 	}
 	return specMember(s, n-1, x) || s[n-1] == x
 }
+
+// ---- RFC 3611: report block headers (the non-reflective part of the XR codec) ----
+
+// specStatSummaryBits: L | D | J | ToH(2) | rsvd(3)  (RFC 3611 section 4.6).
+func specStatSummaryBits(l, d, j bool, toh TTLorHopLimitType) TypeSpecificField {
+	v := TypeSpecificField(toh&3) << 3
+	if l {
+		v |= 0x80
+	}
+	if d {
+		v |= 0x40
+	}
+	if j {
+		v |= 0x20
+	}
+	return v
+}
+
+// specXRDestCount: number of SSRCs the first n report blocks refer to.
+func specXRDestCount(bs []ReportBlock, n int) int {
+	if n <= 0 {
+		return 0
+	}
+	switch b := bs[n-1].(type) {
+	case *DLRRReportBlock:
+		return specXRDestCount(bs, n-1) + len(b.Reports)
+	case *ReceiverReferenceTimeReportBlock, *UnknownReportBlock:
+		return specXRDestCount(bs, n-1)
+	default:
+		return specXRDestCount(bs, n-1) + 1
+	}
+}
+
+// ---- round-trip lemmas (C02, C09): ghost functions verified modularly — Marshal and Unmarshal are replaced
+// by their contracts, so each lemma is a consequence of the layout (C03), decode (C04), framing (C05) and
+// limit (C08) clauses of the two functions. ----
+
+func lemmaRoundTripSR(p SenderReport) (q SenderReport, err, err2 error) {
+	b, err := p.Marshal()
+	if err != nil {
+		return q, err, nil
+	}
+	err2 = q.Unmarshal(b)
+	return q, nil, err2
+}
+
+func lemmaRoundTripRR(p ReceiverReport) (q ReceiverReport, err, err2 error) {
+	b, err := p.Marshal()
+	if err != nil {
+		return q, err, nil
+	}
+	err2 = q.Unmarshal(b)
+	return q, nil, err2
+}
+
+func lemmaRoundTripBYE(p Goodbye) (q Goodbye, err, err2 error) {
+	b, err := p.Marshal()
+	if err != nil {
+		return q, err, nil
+	}
+	err2 = q.Unmarshal(b)
+	return q, nil, err2
+}
+
+func lemmaRoundTripAPP(p ApplicationDefined) (q ApplicationDefined, err, err2 error) {
+	b, err := p.Marshal()
+	if err != nil {
+		return q, err, nil
+	}
+	err2 = q.Unmarshal(b)
+	return q, nil, err2
+}
+
+func lemmaRoundTripNACK(p TransportLayerNack) (q TransportLayerNack, err, err2 error) {
+	b, err := p.Marshal()
+	if err != nil {
+		return q, err, nil
+	}
+	err2 = q.Unmarshal(b)
+	return q, nil, err2
+}
+
+func lemmaRoundTripRRR(p RapidResynchronizationRequest) (q RapidResynchronizationRequest, err, err2 error) {
+	b, err := p.Marshal()
+	if err != nil {
+		return q, err, nil
+	}
+	err2 = q.Unmarshal(b)
+	return q, nil, err2
+}
+
+func lemmaRoundTripPLI(p PictureLossIndication) (q PictureLossIndication, err, err2 error) {
+	b, err := p.Marshal()
+	if err != nil {
+		return q, err, nil
+	}
+	err2 = q.Unmarshal(b)
+	return q, nil, err2
+}
+
+func lemmaRoundTripSLI(p SliceLossIndication) (q SliceLossIndication, err, err2 error) {
+	b, err := p.Marshal()
+	if err != nil {
+		return q, err, nil
+	}
+	err2 = q.Unmarshal(b)
+	return q, nil, err2
+}
+
+func lemmaRoundTripFIR(p FullIntraRequest) (q FullIntraRequest, err, err2 error) {
+	b, err := p.Marshal()
+	if err != nil {
+		return q, err, nil
+	}
+	err2 = q.Unmarshal(b)
+	return q, nil, err2
+}
+
+func lemmaRoundTripREMB(p ReceiverEstimatedMaximumBitrate) (q ReceiverEstimatedMaximumBitrate, err, err2 error) {
+	b, err := p.Marshal()
+	if err != nil {
+		return q, err, nil
+	}
+	err2 = q.Unmarshal(b)
+	return q, nil, err2
+}
+
+// re-encode lemmas (C09): decode arbitrary bytes, marshal the result, decode again
+func lemmaReencodeSR(raw []byte) (p, q SenderReport, err, err2, err3 error) {
+	if err = p.Unmarshal(raw); err != nil {
+		return
+	}
+	b, err2 := p.Marshal()
+	if err2 != nil {
+		return p, q, nil, err2, nil
+	}
+	err3 = q.Unmarshal(b)
+	return p, q, nil, nil, err3
+}
+
+func lemmaReencodeRR(raw []byte) (p, q ReceiverReport, err, err2, err3 error) {
+	if err = p.Unmarshal(raw); err != nil {
+		return
+	}
+	b, err2 := p.Marshal()
+	if err2 != nil {
+		return p, q, nil, err2, nil
+	}
+	err3 = q.Unmarshal(b)
+	return p, q, nil, nil, err3
+}
+
+func lemmaReencodeBYE(raw []byte) (p, q Goodbye, err, err2, err3 error) {
+	if err = p.Unmarshal(raw); err != nil {
+		return
+	}
+	b, err2 := p.Marshal()
+	if err2 != nil {
+		return p, q, nil, err2, nil
+	}
+	err3 = q.Unmarshal(b)
+	return p, q, nil, nil, err3
+}
+
+func lemmaReencodeNACK(raw []byte) (p, q TransportLayerNack, err, err2, err3 error) {
+	if err = p.Unmarshal(raw); err != nil {
+		return
+	}
+	b, err2 := p.Marshal()
+	if err2 != nil {
+		return p, q, nil, err2, nil
+	}
+	err3 = q.Unmarshal(b)
+	return p, q, nil, nil, err3
+}
+
+func lemmaReencodeFIR(raw []byte) (p, q FullIntraRequest, err, err2, err3 error) {
+	if err = p.Unmarshal(raw); err != nil {
+		return
+	}
+	b, err2 := p.Marshal()
+	if err2 != nil {
+		return p, q, nil, err2, nil
+	}
+	err3 = q.Unmarshal(b)
+	return p, q, nil, nil, err3
+}
+
+func lemmaReencodeSLI(raw []byte) (p, q SliceLossIndication, err, err2, err3 error) {
+	if err = p.Unmarshal(raw); err != nil {
+		return
+	}
+	b, err2 := p.Marshal()
+	if err2 != nil {
+		return p, q, nil, err2, nil
+	}
+	err3 = q.Unmarshal(b)
+	return p, q, nil, nil, err3
+}
+
+func lemmaReencodePLI(raw []byte) (p, q PictureLossIndication, err, err2, err3 error) {
+	if err = p.Unmarshal(raw); err != nil {
+		return
+	}
+	b, err2 := p.Marshal()
+	if err2 != nil {
+		return p, q, nil, err2, nil
+	}
+	err3 = q.Unmarshal(b)
+	return p, q, nil, nil, err3
+}
+
+func lemmaReencodeRRR(raw []byte) (p, q RapidResynchronizationRequest, err, err2, err3 error) {
+	if err = p.Unmarshal(raw); err != nil {
+		return
+	}
+	b, err2 := p.Marshal()
+	if err2 != nil {
+		return p, q, nil, err2, nil
+	}
+	err3 = q.Unmarshal(b)
+	return p, q, nil, nil, err3
+}
+
+func lemmaReencodeAPP(raw []byte) (p, q ApplicationDefined, err, err2, err3 error) {
+	if err = p.Unmarshal(raw); err != nil {
+		return
+	}
+	b, err2 := p.Marshal()
+	if err2 != nil {
+		return p, q, nil, err2, nil
+	}
+	err3 = q.Unmarshal(b)
+	return p, q, nil, nil, err3
+}
